@@ -138,6 +138,16 @@ func checkC18(c *h.Check) {
 		if !strings.Contains(cur, "handEdited") {
 			ops = append(ops, damage("hand-edited", edited))
 		}
+		// damage that differs from the current output only in white space / length
+		if cur != "" && !strings.Contains(cur, "\r") && strings.HasSuffix(cur, "}\n") && strings.HasPrefix(cur, "// Code generated by Wire") {
+			ops = append(ops,
+				damage("crlf-copy", strings.ReplaceAll(cur, "\n", "\r\n")),
+				damage("no-final-newline", strings.TrimSuffix(cur, "\n")),
+				damage("blank-tail", cur+"\n\n"),
+				damage("truncated-half", cur[:len(cur)/2]),
+				damage("trailer-comment", cur+"// trailing comment\n"),
+			)
+		}
 		ops = append(ops,
 			damage("noncompiling", consNew+"\npackage app\n\nfunc InitSvc( {\n"),
 			damage("garbage-old-syntax", consOld+"\n%%% this is not Go at all {{{ ]]] unterminated\n"),
@@ -267,7 +277,7 @@ func checkC18(c *h.Check) {
 	for _, v := range variants {
 		names = append(names, v.name)
 	}
-	c.Coverage["rule"] = fmt.Sprintf("explicit-state BFS to closure over module-tree states (state = full byte content of the tree, deduplicated by hash). Source variants %v; operations: switch to variant, gen (thorough: with -output_file_prefix and from the package directory), diff, check, delete output, replace output by hand-edited / non-compiling / garbage / empty / wrong-package files carrying the !wireinject constraint (old and new syntax). Invariants on every transition: successful gen => output == Fresh(variant) from a pristine checkout, only that file changed, second gen changes nothing, diff right after exits 0; gen's and check's verdict equals the fresh-checkout verdict; failed gen, diff and check leave the tree untouched; diff exits 0/1/2 as specified.", names)
+	c.Coverage["rule"] = fmt.Sprintf("explicit-state BFS to closure over module-tree states (state = full byte content of the tree, deduplicated by hash). Source variants %v; operations: switch to variant, gen (thorough: with -output_file_prefix and from the package directory), diff, check, delete output, replace output by hand-edited / non-compiling / garbage / empty / wrong-package files and by white-space-only variants of the current output (CRLF copy, no final newline, blank tail, truncated half, trailing comment) carrying the !wireinject constraint (old and new syntax). Invariants on every transition: successful gen => output == Fresh(variant) from a pristine checkout, only that file changed, second gen changes nothing, diff right after exits 0; gen's and check's verdict equals the fresh-checkout verdict; failed gen, diff and check leave the tree untouched; diff exits 0/1/2 as specified.", names)
 	c.Samples = append(c.Samples, map[string]interface{}{"initial_state_files": variants[0].files, "fresh_output_A1": fresh["A1"], "example_history": "switch:A2 ; gen ; damage:noncompiling ; switch:R1 ; gen ; switch:A1 ; gen"})
 	c.Assumptions = append(c.Assumptions, "wire keeps no state outside the module tree (GOCACHE holds no wire data), so a tree is a complete state", "damaged output files all carry the generated build constraint, as the statement requires")
 	if ex.States < 30 && c.Only == "" {
